@@ -46,6 +46,35 @@ mod verif_kani_pattern {
         check_eq::<32>();
     }
 
+    fn check_eq_at<const N: usize, const B: usize>() {
+        let xb: [u8; B] = kani::any();
+        let yb: [u8; B] = kani::any();
+        let k: usize = kani::any();
+        kani::assume(k <= B - N);
+        let x = &xb[k..k + N];
+        let got = unsafe { is_equal_raw(x.as_ptr(), yb.as_ptr(), N) };
+        let mut want = true;
+        let mut i = 0;
+        while i < N {
+            if x[i] != yb[i] {
+                want = false;
+            }
+            i += 1;
+        }
+        assert!(got == want);
+    }
+
+    /// the result does not depend on where the haystack bytes lie in memory (every offset of
+    /// the compared window in its object, i.e. every alignment class), also for needles of 64
+    /// bytes and more
+    #[kani::proof]
+    #[kani::unwind(71)]
+    fn is_equal_raw_ignores_alignment() {
+        check_eq_at::<12, 20>();
+        check_eq_at::<64, 72>();
+        check_eq_at::<69, 77>();
+    }
+
     fn check_prefix<const H: usize, const P: usize>() {
         let h: [u8; H] = kani::any();
         let p: [u8; P] = kani::any();
